@@ -413,3 +413,22 @@ func HarnessC01ConstCountLong() {
 	vCheck("const.long.left", int64(s.Left()) == n)
 	vReach("end")
 }
+
+// line.count for slow ramps: long runs (a concrete duration of 10 min, 1 h, 2 h, 6 h or 24 h) whose
+// rate moves by as little as 1/16 rps over the whole run - slopes down to 7e-7 rps/s. The duration
+// being concrete keeps the slope linear in the symbolic rates, so the solver decides every branch
+// that depends on it. The operation count is that of the integral, as for every other line.
+func HarnessC01LineSlowRamp() {
+	dur := []time.Duration{10 * time.Minute, time.Hour, 2 * time.Hour, 6 * time.Hour, 24 * time.Hour}[vConcretize(vNondetInt("durIdx", 0, 4))]
+	from := vNondetRatio("from", 0, 1600, 16)
+	to := vNondetRatio("to", 0, 1600, 16)
+	vAssume(from != to)
+	s := NewLine(from, to, dur).(*doAtSchedule)
+	n := s.n
+	vObserve("n", n)
+	I := (from + to) / 2 * float64(dur) / 1e9
+	vCheck("line.slow.count.lower", float64(n) <= I)
+	vCheck("line.slow.count.upper", I < float64(n)+1)
+	vCheck("line.slow.duration", s.duration == dur)
+	vReach("end")
+}
